@@ -13,6 +13,7 @@ pub mod file {
     use super::*;
     pub uninterp spec fn stem_of(p: Seq<char>) -> Option<Seq<char>>;
     pub uninterp spec fn lock_name_of(stem: Seq<char>) -> Seq<char>;
+//!assumed src/core/file.rs get_stem sha=847bfc7f77e874f4
     // ASSUMED (repo function core/file.rs, not verified): the file stem of a path, an error when there is none
     #[verifier::external_body] pub fn get_stem(p: &path::Path) -> (r: Result<&str, MonorailError>)
         ensures r is Ok <==> stem_of(p@) is Some, r matches Ok(s) ==> Some(s@) == stem_of(p@) { unimplemented!() }
